@@ -130,11 +130,14 @@ def shapes(fmt):
     yield "shape:metadata_keys_with_leading_underscore", pygaps.PointIsotherm(pressure=[0.1, 0.2, 0.4], loading=[1.0, 1.5, 2.0], _id='5f1e9c0b7a', _rev=3.5, **meta)
     # a number that is not a number among the metadata (a mass that was not recorded)
     yield "shape:metadata_nan", pygaps.PointIsotherm(pressure=[0.1, 0.2, 0.4], loading=[1.0, 1.5, 2.0], dry_weight=float('nan'), **meta)
-    # whole numbers with a sign among the metadata (the Excel reader returns every number as a float: listed finding)
-    if fmt != 'excel':
+    # whole numbers with a sign among the metadata (the Excel reader returns every number as a float: the same value, and equal)
+    if True:
         yield "shape:metadata_negative_integer", pygaps.PointIsotherm(pressure=[0.1, 0.2, 0.4], loading=[1.0, 1.5, 2.0], cycle=-5, offset=-2.5, **meta)
     # values that use all eight documented decimals at magnitudes above one (eight decimals are not eight significant digits)
     yield "shape:eight_decimals_above_one", pygaps.PointIsotherm(pressure=[1.23456789, 12.3456789, 123.456789], loading=[0.12345678, 1.12345678, 11.12345678], **meta)
+    # a supplementary column that was not measured at every point (missing values)
+    gaps = pandas.DataFrame({'pressure': [0.1, 0.2, 0.3, 0.4], 'loading': [1.0, 1.5, 1.8, 2.0], 'enthalpy': [15.2, float('nan'), 14.1, float('nan')]})
+    yield "shape:extra_column_with_missing_values", pygaps.PointIsotherm(isotherm_data=gaps, pressure_key='pressure', loading_key='loading', **meta)
     # a table with its own names for the pressure and loading columns
     own = pandas.DataFrame({'p_bar': [0.1, 0.2, 0.4], 'uptake': [1.0, 1.5, 2.0], 'dose': [3.0, 4.0, 5.0]})
     if fmt != 'aif':  # (AIF names its pressure and amount columns itself)
@@ -232,6 +235,7 @@ def converted(fmt):
 
 def compare(a, b, fmt):
     """-> list of differences between the original `a` and the re-imported `b` (per the property of that format)"""
+    import pandas
     import pygaps
     diffs = []
     if type(a) is not type(b):
@@ -265,9 +269,13 @@ def compare(a, b, fmt):
                 for c in ca:
                     xa, xb = list(a.data_raw[c]), list(b.data_raw[c])
                     try:
-                        ok = all(abs(float(x) - float(y)) <= 1e-8 for x, y in zip(xa, xb))
+                        fa, fb = [float(x) for x in xa], [float(y) for y in xb]
+                        ok = all((x != x and y != y) or abs(x - y) <= 1e-8 for x, y in zip(fa, fb))  # a missing value stays missing
                     except (TypeError, ValueError):
                         ok = [str(x) for x in xa] == [str(y) for y in xb]
+                    if ok and c != 'branch' and pandas.api.types.is_numeric_dtype(a.data_raw[c]) and not pandas.api.types.is_bool_dtype(a.data_raw[c]) \
+                            and not pandas.api.types.is_numeric_dtype(b.data_raw[c]):
+                        ok = False  # numbers came back as text
                     if not ok:
                         diffs.append(f"column {c}: {xa[:3]} -> {xb[:3]}")
     if isinstance(a, pygaps.ModelIsotherm):
